@@ -705,6 +705,161 @@ def oracle_xrestart(ctx: Ctx, chain, got):
         prev = c
 
 
+# ----------------------------------------------------------------------------- stream 4c: whole lives (restarts + runtime changes)
+
+
+def _strip_values(cfg: Dict[str, Any]):
+    """Structure and metadata of a config descriptor (what a restart may react to): no values, no names."""
+    return [cfg["bridge"], [[a["aid"], [[s["type"], list(s["opt"]), s["meta"], s["desc"]] for s in a["services"]]]
+                            for a in cfg["accs"]]]
+
+
+def gen_life(rng) -> Dict[str, Any]:
+    """One accessory over 2..4 process lifetimes on one persist file; inside a lifetime: value changes,
+    config_changed(), saves, and structural changes made on the running objects."""
+    cur = gen_config(rng)
+    procs = []
+    for k in range(rng.choice([2, 3, 3, 4])):
+        kind = "first"
+        if k:
+            kind, cur, _changed = mutate_config(rng, cur)
+        ops = []
+        for _ in range(rng.choice([0, 1, 2, 3, 5])):
+            r = rng.random()
+            if r < 0.4:
+                t = rng.choice([s["type"] for a in cur["accs"] for s in a["services"]])
+                cname = rng.choice(list(SERVICES[t]["vals"]))
+                ops.append(["value", rng.randrange(4), rng.randrange(4), cname, rng.choice(SERVICES[t]["vals"][cname])])
+            elif r < 0.62:
+                ops.append(["configChanged"])
+            elif r < 0.75:
+                ops.append(["persist"])
+            else:
+                ops.append(["mutate", rng.choice(["add-service", "override", "add-accessory"]), rng.randrange(1000)])
+        procs.append({"kind": kind, "cfg": json.loads(json.dumps(cur)), "ops": ops})
+    return {"cfg0": rng.choice([None, None, 65535, 65534, 65533, rng.randrange(1, 65536)]), "procs": procs}
+
+
+def _life_obs(env, pf):
+    with open(pf, "r", encoding="utf8") as fh:
+        disk = json.load(fh)
+    st = env.driver.state
+    return {"cfg": st.config_version, "disk_cfg": disk.get("config_version"),
+            "disk_synced": disk.get("accessories_hash") == st.accessories_hash,
+            "hash_is_live": st.accessories_hash == env.driver.accessories_hash}
+
+
+def _live_mutation(m, env, root, leaves, kind: str, k: int) -> bool:
+    """A structural / metadata change on the running accessory objects; False if not applicable."""
+    acc = leaves[k % len(leaves)]
+    if kind == "add-service":
+        acc.add_preload_service(sorted(SERVICES)[k % len(SERVICES)])
+        return True
+    if kind == "override":
+        for s in acc.services:
+            for ch in s.characteristics:
+                ovs = META_OVERRIDES.get(ch.display_name)
+                if ovs:
+                    ch.override_properties(properties=dict(ovs[k % len(ovs)]))
+                    return True
+        return False
+    if kind == "add-accessory" and hasattr(root, "accessories") and root is not acc:
+        extra = m.accessory.Accessory(env.driver, "Extra %d" % k, aid=max(root.accessories) + 1)
+        extra.add_preload_service("Switch")
+        root.add_accessory(extra)
+        leaves.append(extra)
+        return True
+    return False
+
+
+def impl_life(m, life) -> Dict[str, Any]:
+    tmp = tempfile.mkdtemp(prefix="c18-life-")
+    pf = os.path.join(tmp, "accessory.state")
+    obs: List[Dict[str, Any]] = []
+    model_ops: List[Any] = []
+    starts = []
+    try:
+        if life.get("cfg0") is not None:
+            # an earlier life left this configuration number (and no hash) behind
+            with real_driver(m, pf, patch_persist=False) as env:
+                env.driver.state.config_version = life["cfg0"]
+                env.driver.persist()
+        for proc in life["procs"]:
+            with real_driver(m, pf, patch_persist=False) as env:
+                root, leaves = build_accessories(m, env.driver, proc["cfg"])
+                env.driver.add_accessory(root)  # loads the file, or writes the fresh state
+                start_driver(env)
+                reg = env.events[0] if env.events else None
+                starts.append({"c": env.driver.state.config_version, "adv": reg["c#"] if reg else None,
+                               "id": reg["id"] if reg else None, "mutated_live": False, "stop_c": None})
+                model_ops.append(["restart", abstract_db(root)])
+                obs.append(_life_obs(env, pf))
+                for op in proc["ops"]:
+                    if op[0] == "value":
+                        acc = leaves[op[1] % len(leaves)]
+                        svcs = [s for s in acc.services if s.display_name != "AccessoryInformation"]
+                        svc = svcs[op[2] % len(svcs)]
+                        ch = next((c for c in svc.characteristics if c.display_name == op[3]), None)
+                        if ch is None:
+                            continue
+                        try:
+                            ch.set_value(op[4])
+                        except ValueError:
+                            continue
+                        model_ops.append(["value", acc.aid, acc.iid_manager.get_iid(ch), json.dumps(ch.value, default=str)])
+                    elif op[0] == "configChanged":
+                        env.driver.config_changed()
+                        spin(env.loop)
+                        model_ops.append(["configChanged"])
+                    elif op[0] == "persist":
+                        env.driver.persist()
+                        model_ops.append(["persist"])
+                    else:
+                        if not _live_mutation(m, env, root, leaves, op[1], op[2]):
+                            continue
+                        starts[-1]["mutated_live"] = True
+                        model_ops.append(["mutate", abstract_db(root)])
+                    obs.append(_life_obs(env, pf))
+                starts[-1]["stop_c"] = env.driver.state.config_version
+    finally:
+        shutil.rmtree(tmp, ignore_errors=True)
+    return {"obs": obs, "model_ops": model_ops, "starts": starts}
+
+
+def oracle_life(ctx: Ctx, life, got):
+    rep = {"kind": "life", "life": life}
+    for o in got["obs"]:
+        for c in (o["cfg"], o["disk_cfg"]):
+            if not (isinstance(c, int) and not isinstance(c, bool) and 1 <= c <= 65535):
+                ctx.fail("C18:config-number-out-of-range", f"configuration number {c} (live {o['cfg']}, file {o['disk_cfg']})", rep)
+                return
+    for s in got["starts"]:
+        if s["adv"] != str(s["c"]):
+            ctx.fail("C18:cfg-not-advertised", f"registered c#={s['adv']!r}, state {s['c']}", rep)
+            return
+        if s["id"] != MAC:
+            ctx.fail("C18:id-not-mac", f"registered id {s['id']!r}", rep)
+            return
+    # across each restart: the number the process stopped with against the one the next process starts with
+    # moves exactly when structure or metadata differ between the two configurations.  A lifetime in which the
+    # application restructured the *running* accessory is not judged (the property speaks of pairs of
+    # configurations across a restart; there the restart compares with the configuration of the previous start).
+    for k in range(1, len(got["starts"])):
+        prev, cur = got["starts"][k - 1], got["starts"][k]
+        if prev["mutated_live"]:
+            continue
+        should_move = _strip_values(life["procs"][k]["cfg"]) != _strip_values(life["procs"][k - 1]["cfg"])
+        moved = cur["c"] != prev["stop_c"]
+        kind = life["procs"][k]["kind"]
+        if moved and not should_move:
+            sig = "C18:config-number-moved-by-values" if kind in ("values", "rename-accessory") else "C18:config-number-moved-without-change"
+            ctx.fail(sig, f"restart {k} ({kind}) of a life: config number {prev['stop_c']} -> {cur['c']}", rep)
+            return
+        if should_move and not moved:
+            ctx.fail("C18:config-number-not-moved", f"restart {k} ({kind}) of a life: config number stayed {cur['c']}", rep)
+            return
+
+
 # ----------------------------------------------------------------------------- stream 5: values never move the hash
 
 
@@ -1504,6 +1659,27 @@ def run(ctx: Ctx):
         if i == 0:
             st.sample({"restart_kind": kind, "c1": got["c1"], "c2": got["c2"], "hash_equal": got["h1"] == got["h2"]})
 
+    # --- whole lives: several process lifetimes with runtime changes in between
+    for i in range(ctx.n(40, 500)):
+        life = gen_life(rng)
+        got = impl_life(m, life)
+        oracle_life(ctx, life, got)
+        lines.append({"layer": "advert", "op": "life", "cfg0": life["cfg0"], "ops": got["model_ops"]})
+        impl.append(got["obs"])
+        post.append(("life", {"cfg0": life["cfg0"], "kinds": [p["kind"] for p in life["procs"]],
+                              "ops": [[o[0] for o in p["ops"]] for p in life["procs"]]}, lambda a: a.get("ok")))
+        st.case(["l", life], len(got["obs"]) > len(life["procs"]) or any(p["kind"] != "identical" for p in life["procs"][1:]))
+        st.hit("op", "life")
+        for o in got["model_ops"]:
+            st.hit("op", "life-" + o[0])
+        for k in range(1, len(got["starts"])):
+            moved = got["starts"][k]["c"] != got["starts"][k - 1]["stop_c"]
+            st.hit("outcome", "life-restart-" + ("after-runtime-restructuring-" if got["starts"][k - 1]["mutated_live"] else "")
+                   + life["procs"][k]["kind"] + ("-moved" if moved else "-kept"))
+        if i == 0:
+            st.sample({"life_kinds": [p["kind"] for p in life["procs"]], "cfg0": life["cfg0"],
+                       "ops": [o[0] for o in got["model_ops"]], "c#": [o["cfg"] for o in got["obs"]]})
+
     # --- values never move the hash
     for i in range(ctx.n(80, 800)):
         cfg = gen_config(rng)
@@ -1635,6 +1811,9 @@ def search(ctx: Ctx):
             kind, b, changed = mutate_config(rng, a)
             case = {"a": a, "b": b, "kind": kind, "changed": changed, "cfg0": rng.choice([None, 65535])}
             oracle_restart(ctx, case, impl_restart(m, case))
+        for _ in range(80):
+            life = gen_life(rng)
+            oracle_life(ctx, life, impl_life(m, life))
     finally:
         ctx.tier = saved
 
@@ -1671,6 +1850,10 @@ def replay(ctx: Ctx, r):
         got = impl_xrestart(r["chain"])
         oracle_xrestart(ctx, r["chain"], got)
         print("starts:", [(x["seed"], x["expect"], o["c"], o["h"][:8]) for x, o in zip(r["chain"]["runs"], got["outs"])])
+    elif kind == "life":
+        got = impl_life(m, r["life"])
+        oracle_life(ctx, r["life"], got)
+        print("life:", [(o[0], ob["cfg"], ob["disk_cfg"]) for o, ob in zip(got["model_ops"], got["obs"])])
     elif kind == "sys":
         got = impl_sys(m, r["script"])
         oracle_sys(ctx, r["script"], got)
